@@ -161,7 +161,7 @@ def leg_model(legs):
     if thorough:
         runs += [
             ("h_two", mc_cfg(wd, "h_two.cfg", "MCSlots2", "MCConfigs", unroutable="{2}")),
-            ("h_three", mc_cfg(wd, "h_three.cfg", "MCSlots3", "MCConfigs1", pids=3, maxcfg="= 6")),
+            ("h_two_real", mc_cfg(wd, "h_two_real.cfg", "MCSlots2", "MCConfigs1")),
             ("h_clusters", mc_cfg(wd, "h_clusters.cfg", "MCSlots1", "MCConfigs1", clusters=("c1", "c2"), pids=2)),
             ("h_sameid", mc_cfg(wd, "h_sameid.cfg", "MCSlotsSameId", "MCConfigsMin", hcap=1)),
         ]
